@@ -120,4 +120,242 @@ theorem writeBack_failed_rows (t : Table) (cl : List Nat) (i : Nat) (hi : i ∈ 
     ∀ j, cell (writeBack t cl .failed) j i = cell t j i :=
   ⟨scatter_const_getElem?_of_mem Cost.nan t.cost cl i hi hlt, fun _ => rfl⟩
 
+/-! ## the block: number of columns and `const` columns are kept by every round -/
+
+/-- same number of columns (at most one per mode) and every `const` (mode 0) column equal -/
+def Kept : List Nat → List (List Rat) → List (List Rat) → Prop
+  | m :: ms, c :: cs, c' :: cs' => (m = 0 → c' = c) ∧ Kept ms cs cs'
+  | _, [], [] => True
+  | _, _, _ => False
+
+theorem kept_refl : ∀ (ms : List Nat) (cs : List (List Rat)), cs.length ≤ ms.length → Kept ms cs cs
+  | _, [], _ => by simp [Kept]
+  | [], _ :: _, h => by simp at h
+  | m :: ms, c :: cs, h => ⟨fun _ => rfl, kept_refl ms cs (by simpa using h)⟩
+
+theorem kept_trans : ∀ (ms : List Nat) (a b c : List (List Rat)),
+    Kept ms a b → Kept ms b c → Kept ms a c := by
+  intro ms
+  induction ms with
+  | nil =>
+    intro a b c h1 h2
+    cases a <;> cases b <;> cases c <;> simp_all [Kept]
+  | cons m ms ih =>
+    intro a b c h1 h2
+    cases a <;> cases b <;> cases c <;> simp only [Kept] at h1 h2 ⊢
+    exact ⟨fun h => (h2.1 h).trans (h1.1 h), ih _ _ _ h1.2 h2.2⟩
+
+theorem kept_length : ∀ (ms : List Nat) (a b : List (List Rat)), Kept ms a b →
+    b.length = a.length ∧ a.length ≤ ms.length := by
+  intro ms
+  induction ms with
+  | nil =>
+    intro a b h
+    cases a <;> cases b <;> simp_all [Kept]
+  | cons m ms ih =>
+    intro a b h
+    cases a <;> cases b <;> simp only [Kept] at h ⊢
+    · simp
+    · have := ih _ _ h.2
+      simp only [List.length_cons]
+      omega
+
+theorem kept_get : ∀ (ms : List Nat) (a b : List (List Rat)) (j : Nat) (c c' : List Rat),
+    Kept ms a b → ms[j]? = some 0 → a[j]? = some c → b[j]? = some c' → c' = c := by
+  intro ms
+  induction ms with
+  | nil => intro a b j c c' _ hm; simp at hm
+  | cons m ms ih =>
+    intro a b j c c' h hm ha hb
+    cases a with
+    | nil => simp at ha
+    | cons a0 a =>
+      cases b with
+      | nil => simp at hb
+      | cons b0 b =>
+        cases j with
+        | zero =>
+          simp only [List.getElem?_cons_zero, Option.some.injEq] at hm ha hb
+          subst hm ha hb
+          exact h.1 rfl
+        | succ j => exact ih a b j c c' h.2 (by simpa using hm) (by simpa using ha) (by simpa using hb)
+
+theorem unpackCols_kept (groups : Option (List (List Nat))) :
+    ∀ (ms : List Nat) (v : List Rat) (cs : List (List Rat)), cs.length ≤ ms.length →
+      Kept ms cs (unpackCols groups ms v cs)
+  | ms, _, [], _ => by cases ms <;> simp [unpackCols, Kept]
+  | [], _, _ :: _, h => by simp at h
+  | m :: ms, v, c :: cs, h => by
+    simp only [unpackCols, Kept]
+    exact ⟨fun h0 => by simp [newCol, h0], unpackCols_kept groups ms _ cs (by simpa using h)⟩
+
+theorem shape_get : ∀ (a b : List (List Rat)) (j : Nat) (c d : List Rat), Shape a b →
+    a[j]? = some c → b[j]? = some d → c.length = d.length := by
+  intro a
+  induction a with
+  | nil => intro b j c d _ ha; simp at ha
+  | cons a0 a ih =>
+    intro b j c d h ha hb
+    cases b with
+    | nil => simp at hb
+    | cons b0 b =>
+      cases j with
+      | zero =>
+        simp only [List.getElem?_cons_zero, Option.some.injEq] at ha hb
+        subst ha hb
+        exact h.1
+      | succ j => exact ih b j c d h.2 (by simpa using ha) (by simpa using hb)
+
+theorem colsOK_get (groups : Option (List (List Nat))) :
+    ∀ (ms : List Nat) (ss : List Spec) (b0 b1 b' : List (List Rat)) (j m : Nat) (s : Spec)
+      (c0 c1 c' : List Rat), ColsOK groups ms ss b0 b1 b' → ms[j]? = some m → ss[j]? = some s →
+      b0[j]? = some c0 → b1[j]? = some c1 → b'[j]? = some c' → ColOK groups m s c0 c1 c' := by
+  intro ms
+  induction ms with
+  | nil => intro ss b0 b1 b' j m s c0 c1 c' _ hm; simp at hm
+  | cons m' ms ih =>
+    intro ss b0 b1 b' j m s c0 c1 c' h hm hs h0 h1 h'
+    cases ss with
+    | nil => simp at hs
+    | cons s' ss =>
+    cases b0 with
+    | nil => simp at h0
+    | cons a0 b0 =>
+    cases b1 with
+    | nil => simp at h1
+    | cons a1 b1 =>
+    cases b' with
+    | nil => simp at h'
+    | cons a' b' =>
+    cases j with
+    | zero =>
+      simp only [List.getElem?_cons_zero, Option.some.injEq] at hm hs h0 h1 h'
+      subst hm hs h0 h1 h'
+      exact h.1
+    | succ j =>
+      exact ih ss b0 b1 b' j m s c0 c1 c' h.2 (by simpa using hm) (by simpa using hs)
+        (by simpa using h0) (by simpa using h1) (by simpa using h')
+
+/-! ## the strengthened success lemma (same induction as `rounds_success`) -/
+
+theorem finish_fitted_dev (cfg : Cfg) (b blk : List (List (Option Rat))) (dev dev' : Option Rat)
+    (h : finish cfg b dev = .fitted blk dev') : dev' = dev := by
+  unfold finish at h
+  cases dev with
+  | none => simp at h; exact h.2.symm
+  | some d =>
+    simp only at h
+    split at h
+    · simp at h
+    · simp at h; exact h.2.symm
+
+/-- `rounds_success` plus: the block keeps its number of columns and its `const` columns through
+every round (so `prev` — hidden in `success_within_bounds`'s existential — has a column for every
+parameter), and the deviation written as `cost` is one the optimiser reported. -/
+theorem rounds_success_kept (cfg : Cfg) (opt : Problem → OptOut) (hc : OptContract opt)
+    (groups : Option (List (List Nat))) (pgroups : List (List Nat)) (pb : Problem) (n : Nat)
+    (block0 : List (List Rat)) (hsm : cfg.specs.length = cfg.modes.length)
+    (hb : pb.bounds = computeBounds cfg.specs cfg.modes groups block0) :
+    ∀ (fuel k : Nat) (coords block1 : List (List Rat)), Shape block0 block1 →
+      Kept cfg.modes block0 block1 →
+      ∀ blk dev, rounds cfg opt groups pgroups pb n fuel k coords block1 = .ok (.fitted blk dev) →
+      ∃ prev cols', blk = someBlock cols' ∧ Shape block0 prev ∧ Kept cfg.modes block0 prev ∧
+        Kept cfg.modes prev cols' ∧ ColsOK groups cfg.modes cfg.specs block0 prev cols' ∧
+        ∃ pb' x, opt pb' = .ok x dev
+  | 0, _, _, _, _, _, _, _, h => by simp [rounds] at h
+  | fuel + 1, k, coords, block1, hs, hk, blk, dev, h => by
+    unfold rounds at h
+    by_cases hp : prepOK cfg pgroups coords
+    · simp only [hp, Bool.not_true, Bool.false_eq_true, if_false] at h
+      cases ho : opt { pb with round := k, coords := coords } with
+      | fail => simp [ho] at h
+      | raise => simp [ho] at h
+      | nanx d => exact absurd ho (hc.2 _ _)
+      | ok x d =>
+        have hx : Forall₂ Within x (computeBounds cfg.specs cfg.modes groups block0) := by
+          have := hc.1 _ x d ho
+          simpa [hb] using this
+        have hcols := unpack_cols_ok groups cfg.modes cfg.specs block0 block1 x hs hx
+        have hl1 := kept_length _ _ _ hk
+        have hk' : Kept cfg.modes block1 (unpackCols groups cfg.modes x block1) :=
+          unpackCols_kept groups cfg.modes x block1 (by omega)
+        simp only [ho] at h
+        split at h
+        · simp only [Except.ok.injEq] at h
+          exact ⟨block1, _, finish_fitted _ _ _ _ _ h, hs, hk, hk', hcols, _, x,
+            (finish_fitted_dev _ _ _ _ _ h) ▸ ho⟩
+        · split at h
+          · simp only [Except.ok.injEq] at h
+            exact ⟨block1, _, finish_fitted _ _ _ _ _ h, hs, hk, hk', hcols, _, x,
+              (finish_fitted_dev _ _ _ _ _ h) ▸ ho⟩
+          · exact rounds_success_kept cfg opt hc groups pgroups pb n block0 hsm hb fuel (k + 1) _ _
+              (unpack_shape groups cfg.modes cfg.specs block0 block1 x hsm hs hx)
+              (kept_trans _ _ _ _ hk hk') blk dev h
+    · simp [hp] at h
+
+theorem mapM_id_eq_some {α} : ∀ (l : List (Option α)) (l' : List α),
+    l.mapM id = some l' → l = l'.map some
+  | [], l', h => by
+    simp at h
+    subst h
+    rfl
+  | a :: l, l', h => by
+    cases a with
+    | none => simp [List.mapM_cons] at h
+    | some a =>
+      cases hl : l.mapM id with
+      | none => simp [List.mapM_cons, hl] at h
+      | some r =>
+        simp [List.mapM_cons, hl] at h
+        subst h
+        simp [mapM_id_eq_some l r hl]
+
+/-- `np.isfinite(params).all()`: the block read from the table is finite, cell by cell -/
+theorem allFinite_spec : ∀ (b : List (List (Option Rat))) (b0 : List (List Rat)),
+    allFinite b = some b0 → b = someBlock b0
+  | [], b0, h => by
+    simp [allFinite] at h
+    subst h
+    rfl
+  | c :: b, b0, h => by
+    unfold allFinite at h
+    cases hc : c.mapM id with
+    | none => simp [List.mapM_cons, hc] at h
+    | some c0 =>
+      cases hb : b.mapM (fun c => c.mapM id) with
+      | none => simp [List.mapM_cons, hc, hb] at h
+      | some r =>
+        simp [List.mapM_cons, hc, hb] at h
+        subst h
+        have := allFinite_spec b r hb
+        simp [someBlock, mapM_id_eq_some c c0 hc, this]
+
+/-- `success_within_bounds`, strengthened (it implies it): the input block is `someBlock block0`,
+number of columns and `const` columns kept, the written deviation is one `opt` reported. -/
+theorem fitBlock_fitted_kept (cfg : Cfg) (opt : Problem → OptOut) (hc : OptContract opt)
+    (hsm : cfg.specs.length = cfg.modes.length)
+    (groups : Option (List (List Nat))) (pgroups : List (List Nat)) (tag n : Nat)
+    (blockO blk : List (List (Option Rat))) (dev : Option Rat)
+    (hlen : blockO.length ≤ cfg.modes.length)
+    (h : fitBlock cfg opt groups pgroups tag n blockO = .ok (.fitted blk dev)) :
+    ∃ block0 prev cols', blockO = someBlock block0 ∧ blk = someBlock cols' ∧
+      Shape block0 prev ∧ Kept cfg.modes block0 prev ∧ Kept cfg.modes prev cols' ∧
+      ColsOK groups cfg.modes cfg.specs block0 prev cols' ∧ ∃ pb x, opt pb = .ok x dev := by
+  unfold fitBlock at h
+  cases hf : allFinite blockO with
+  | none => simp [hf] at h
+  | some block0 =>
+    have hb0 := allFinite_spec _ _ hf
+    have hl0 : block0.length ≤ cfg.modes.length := by
+      have := congrArg List.length hb0
+      simp only [someBlock, List.length_map] at this
+      omega
+    simp only [hf] at h
+    split at h
+    · simp at h
+    · obtain ⟨prev, cols', h1, h2, h3, h4, h5, h6⟩ :=
+        rounds_success_kept cfg opt hc groups pgroups _ n block0 hsm rfl cfg.maxIter 0 _ block0
+          (shape_refl block0) (kept_refl _ _ hl0) blk dev h
+      exact ⟨block0, prev, cols', hb0, h1, h2, h3, h4, h5, h6⟩
+
 end TrackpyV.Bounds
